@@ -60,6 +60,26 @@ fn collision_program(rng: &mut crate::util::Rng) -> Sources {
 /// the shapes the reference semantics leaves open, e.g. colliding operation ids), one in six collision-prone.
 fn case_sources(seed: u64, salt: &str, idx: u64, st: &mut Stats) -> Option<(Sources, bool)> {
     match idx % 6 {
+        3 => {
+            // a large module: several hundred declarations in front of a program with recursion, so that whatever
+            // the front end keeps per module (memo table, arena, interner) grows well past small-program sizes
+            // before the nodes that name implicit components are created
+            let mut rng = crate::util::Rng::for_case(seed, &format!("{salt}-large"), idx);
+            let mut text = String::new();
+            let n = rng.range(250, 500);
+            for i in 0..n {
+                match i % 4 {
+                    0 => text.push_str(&format!("let zfill{i} = {{ 'a num, 'b [str], 'c {{ 'd bool }} }};\n")),
+                    1 => text.push_str(&format!("let zfill{i} x = {{ 'p x, 'q zfill{} }} ~ num;\n", i - 1)),
+                    2 => text.push_str(&format!("let zfill{i} = /s{i}/{{ 'id int }} on get -> <status=200, zfill{}>, put : <zfill{}> -> <>;\n", i - 2, i - 2)),
+                    _ => text.push_str(&format!("# description: \"filler {i}\"\nlet zfill{i} = (zfill{} str) ~ [zfill{}];\n", i - 2, i - 3)),
+                }
+            }
+            let tail = collision_program(&mut rng);
+            text.push_str(&tail.files[0].1);
+            st.inc("large_programs");
+            Some((Sources::single(&text), true))
+        }
         5 => {
             let mut rng = crate::util::Rng::for_case(seed, &format!("{salt}-collide"), idx);
             st.inc("collision_prone_programs");
